@@ -29,6 +29,7 @@ PROFILES = {
                                                "uncertainty_alpha": 0.05}}),
         "weekmap": dict(kwargs={"settings": {"weekday_weekend": dict(_ALT_WEEK, friday="weekend", sunday="weekend")}},
                         wants_weekend_regime=True),   # Fri+Sat+Sun weekend: a weekday/weekend split gets selected
+        "shared_dict": dict(kwargs={"settings": "SHARED_DICT"}),  # ONE settings dict for every model of this profile
         "dev_nosmooth": dict(kwargs={"settings": {"developer_mode": True, "allow_smooth_model": False}}),
         "dev_alphaall": dict(kwargs={"settings": {"developer_mode": True, "alpha_final_type": "all"}}),
         "dev_nogauss": dict(kwargs={"settings": {"developer_mode": True, "split_selection": {
@@ -64,11 +65,15 @@ PROFILES = {
         "supp": dict(kwargs={"settings": {"seed": 9, "supplemental_time_series_columns": ["extra_ts"]}}, needs_extra=True),
         "suppcat": dict(kwargs={"settings": {"seed": 9, "supplemental_categorical_columns": ["extra_cat"]}}, needs_extra=True),
         "obj": dict(kwargs={"settings": "OBJ"}),  # a settings object instead of a dict
+        "shared_obj": dict(kwargs={"settings": "SHARED_OBJ"}),  # ONE settings object for every model of this profile
     },
     "caltrack": {
         "default": dict(kwargs={}),
     },
 }
+
+
+_SHARED = {}
 
 
 def make_model(em, fam: str, profile: str):
@@ -78,6 +83,16 @@ def make_model(em, fam: str, profile: str):
         from opendsm.eemeter.models.hourly import settings as hs
 
         kw["settings"] = hs.HourlyNonSolarSettings(seed=11, min_daily_training_hours=10)
+    elif kw.get("settings") == "SHARED_OBJ":
+        from opendsm.eemeter.models.hourly import settings as hs
+
+        if "hourly" not in _SHARED:
+            _SHARED["hourly"] = hs.BaseHourlySettings(seed=12)
+        kw["settings"] = _SHARED["hourly"]     # the very same object for every model of this profile in the process
+    elif kw.get("settings") == "SHARED_DICT":
+        if "daily" not in _SHARED:
+            _SHARED["daily"] = {"uncertainty_alpha": 0.2, "season": dict(_ALT_SEASON)}
+        kw["settings"] = _SHARED["daily"]      # the very same dict object (a caller looping over meters)
     return cls(**kw)
 
 
